@@ -124,6 +124,47 @@ def main():
                 break
         if len(problems) >= 5:
             break
+    # 4. a merged layer (MultiContext): ONE implementation registered with
+    # different parameter declarations in different members (and twice in
+    # one member); every order of the members, every enumeration order
+    def impl(x):
+        return type(x).__name__
+
+    def variant(t, tag):
+        fd = specs.get_function_definition(
+            impl, parameter_type_func=lambda n: yaqltypes.PythonType(
+                t, False))
+        fd.name = 'moo'
+        fd.meta['tag'] = tag
+        return fd
+    for value, text in ((True, 'moo(true)'), (3, 'moo(3)'),
+                        ('s', "moo('s')")):
+        seen = set()
+        for perm in itertools.permutations([(bool, 'b'), (int, 'i'),
+                                            (object, 'o')]):
+            for split in (1, 2):
+                members = []
+                for group in (perm[:split], perm[split:]):
+                    m = contexts.Context(base)
+                    for t, tag in group:
+                        m.register_function(variant(t, tag))
+                    members.append(m)
+                ctx = contexts.MultiContext(members)
+                fds = ctx.get_functions('moo')[0]
+                if len(fds) != 3:
+                    problems.append(dict(
+                        case='merged-layer-shared-payload', expression=text,
+                        detail='the merged layer holds %d of the 3 '
+                               'registered overloads' % len(fds)))
+                    break
+                seen.add(outcome(ctx, engine, text, None))
+            else:
+                continue
+            break
+        if len(seen) > 1:
+            problems.append(dict(case='merged-layer-shared-payload',
+                                 expression=text,
+                                 outcomes=sorted(map(str, seen))))
     print(json.dumps(dict(status='failed' if problems else 'ok',
                           families=len(fams), problems=problems)))
 
